@@ -251,7 +251,9 @@ func afterMutation(c *engine.Ctx) {
 		}
 	}
 	muts := []mut{
-		{"change hash of n0", func(nl *sbom.NodeList) { on(nl, "n0", func(n *sbom.Node) { n.Hashes = map[int32]string{algos[0]: h2} }) }},
+		{"change hash of n0", func(nl *sbom.NodeList) {
+			on(nl, "n0", func(n *sbom.Node) { n.Hashes = map[int32]string{algos[0]: h2} })
+		}},
 		{"add hash to n2", func(nl *sbom.NodeList) { on(nl, "n2", func(n *sbom.Node) { n.AddHash(sbom.HashAlgorithm_SHA1, h1) }) }},
 		{"change purl of n1", func(nl *sbom.NodeList) {
 			on(nl, "n1", func(n *sbom.Node) { n.Identifiers = map[int32]string{int32(sbom.SoftwareIdentifierType_PURL): p1} })
